@@ -210,9 +210,9 @@ Proof. exact row_split_nil_stack_not_conserved. Qed.
 Print Assumptions C02_row_split_nil_stack_refuted.
 
 (* --- a continued cell of which nothing fits on a page is conserved when it resumes where
-   it was.  The faithful model of tables.go:221-225 (resume at {0: nil}) violates the
-   statement: the known finding C02/table-cell-restarted-after-empty-fragment, witness
-   corpus/C02/005-*.json *)
+   it was (tables.go:221-232 since /repo 7408964).  Resuming it at {0: nil}, as the code did
+   before, violates the statement (the fixed finding
+   C02/table-cell-restarted-after-empty-fragment, witness corpus/C02/005-*.json) *)
 Theorem C02_cell_nothing_fits_resume_ok :
   forall (U : Type) (c : list U) s, cell_three_pages U false c s = c.
 Proof. exact cell_nothing_fits_resume_ok. Qed.
